@@ -136,7 +136,8 @@ def run(tier="quick", seed=0, replay=None):
     chk.rule = ("IncrementalSage configurations (static/dynamic, alpha in {1,1/2,1/3,1/1000,999/1000}, d 1..4, n_inner 1..3, "
                 "scalar / fixed multi-label / growing label-set models, arbitrary / squared / absolute loss, 10 storages, joint / "
                 "product / default imputer, str/int/float/mixed names, loss_bigger_is_better, per-call update_storage and "
-                "n_inner overrides), streams of 3..6 calls; all permutation sequences for d<=3 over 2 explained steps. "
+                "n_inner overrides), streams of 3..6 calls; all permutation sequences for d<=3 over 2 explained steps; library wrappers "
+                "around models trained between the calls; sparse streams (optional inputs present in some observations only). "
                 "Non-trivial: at least one explained call; distinct by hash of (config, stream).")
     chk.trusted = ["Lean 4.33.0 kernel", "axioms propext/Classical.choice/Quot.sound",
                    "hand-written model Model/Explainer.lean tied by this correspondence (and the tracker kernels by translation)",
